@@ -10,6 +10,7 @@ package leak
 import (
 	"crypto/elliptic"
 	"fmt"
+	"io"
 
 	"github.com/markkurossi/mpc/ot"
 	"github.com/markkurossi/mpc/sha2pc"
@@ -160,7 +161,17 @@ func (w *world) whole(t *rt.Tape, trace bool, res *core.Result) *core.Result {
 		kind = twopc.OTCO
 	}
 	tamper := t.Choose(rt.SGen, 4) == 0
-	o := twopc.Run(t, twopc.Session{Circ: circ, X: in[0], Y: in[1], OT: kind, Pipe: pipe, Trace: trace && !tamper})
+	// In a quarter of the cases the garbler's randomness source delivers short
+	// reads at every multiple of a block size that is itself a multiple of 16
+	// (a buffered reader): the label-sized reads of the code stay whole, a
+	// larger bulk read would not.
+	var garbleRand func(io.Reader) io.Reader
+	if t.Choose(rt.SGen, 4) == 0 {
+		block := []int{64, 1024, 4096, 160}[t.Choose(rt.SGen, 4)]
+		garbleRand = func(r io.Reader) io.Reader { return &simrand.ShortReader{R: r, Block: block} }
+		res.Reach["garbler-randomness.short-reads-at-block-boundaries"]++
+	}
+	o := twopc.Run(t, twopc.Session{Circ: circ, X: in[0], Y: in[1], OT: kind, Pipe: pipe, Trace: trace && !tamper, GarbleRand: garbleRand})
 	core.Finish(res, o.RR)
 	res.Class = "whole-circuit ot=" + twopc.OTNames[kind]
 	smp := sample{World: "whole-circuit", Case: twopc.Sample{Circuit: gen.Describe(circ), X: in[0].Text(16), Y: in[1].Text(16), OT: twopc.OTNames[kind]}, Transcript: len(o.GE)}
@@ -222,7 +233,7 @@ func (w *world) whole(t *rt.Tape, trace bool, res *core.Result) *core.Result {
 		simnet.Reset()
 		p2 := pipe
 		p2.BA.Faults = faults
-		o2 := twopc.Run(t, twopc.Session{Circ: circ, X: in[0], Y: in[1], OT: kind, Pipe: p2, Trace: trace})
+		o2 := twopc.Run(t, twopc.Session{Circ: circ, X: in[0], Y: in[1], OT: kind, Pipe: p2, Trace: trace, GarbleRand: garbleRand})
 		res.Steps += o2.RR.Steps
 		res.Hash = res.Hash[:32] + o2.RR.Hash[:32]
 		if trace {
